@@ -80,7 +80,7 @@ theorem handleNilComplex_handled (env : CEnv P O T V E) (c : CCfg P O T V)
       · rw [if_neg a]
         by_cases b : (c.i.optional || c.i.nilable || c.tIsPtr) = true
         · rw [if_pos b]
-          by_cases d : (nilApplicable c.i c.i.checks).isEmpty = true
+          by_cases d : (if c.isNilType then (nilApplicable c.i c.i.checks).isEmpty else !hasOverwrite c.i.checks) = true
           · exact ⟨_, by rw [if_pos d]⟩
           · exact ⟨_, by rw [if_neg d]⟩
         · rw [if_neg b]
